@@ -443,9 +443,10 @@ meta("C17", level="exploration",
           "all 7 macros x all 22 accepted value types x tag arities 0,1,2,3,6 with run-time random strings; every argument is a block expression bumping its own counter. Oracle: "
           "differential against the explicit chain get_global_default().unwrap().<kind>_with_tags(k, v).with_tag(..)...send() run back to back on the same client (same line, one emit each, "
           "same handler traffic), the reference formatter of C01 with the client's defaults, every argument evaluated exactly once, failures only in the handler log (same error), panic iff "
-          "no client set, a second set_global_default is ignored. distinct = (macro, value type, tag arity, sink behaviour, handler, set/unset)",
+          "no client set - including macros tried BEFORE the set on the main thread and on another thread (they must panic, and the same threads must work after the set), and macros on threads "
+          "spawned after the set -, a second set_global_default is ignored. distinct = (macro, value type, tag arity, sink behaviour, handler, set/unset)",
      assumptions=["tag arities above 6 are not driven (the macro repetition is uniform)", "the global can be set once per process, hence one process per configuration"],
-     min_evaluations=2000, must_observe={"macro_vs_chain_pairs_equal": 1500, "argument_evaluations_checked": 5000, "unset_macros_panicked": 100, "handler_deliveries_checked": 100, "second_set_ignored_checks": 4})
+     min_evaluations=2000, must_observe={"macro_vs_chain_pairs_equal": 1500, "argument_evaluations_checked": 5000, "unset_macros_panicked": 100, "handler_deliveries_checked": 100, "second_set_ignored_checks": 4, "threads_that_tried_a_macro_before_set": 4, "macros_on_fresh_threads": 4})
 
 
 @plan("C17")
@@ -460,6 +461,8 @@ def _c17(bindir, tier, seed):
             argv += ["--no-handler"]
         if i % 6 == 5:
             argv += ["--unset"]
+        elif i % 2 == 0:
+            argv += ["--late-set"]
         jobs.append(Job("C17-macro-%d" % i, argv, 600))
     return jobs
 
